@@ -383,6 +383,7 @@ def stress_round(ctx, seed, interleavings, case_no):
     own_expected = []
     errors = []
     described = []
+    refused = []
     http_logger = logging.getLogger(conn_http.__name__)
     old_level = http_logger.level
     if case_no % 4 == 3:
@@ -430,6 +431,14 @@ def stress_round(ctx, seed, interleavings, case_no):
                         verb("/fail" if k % 20 == 9 else "/unreachable", **kw)
                     except urllib.error.URLError:     # (HTTPError is one)
                         pass
+                elif k % 10 == 4 and k % 20 == 4 and not uses_id_adapter(i):
+                    # a call that is refused before anything is sent (the parameters cannot be url-encoded): it is no
+                    # request and takes no number
+                    try:
+                        verb("/p", params=17)
+                        errors.append("parameters that cannot be url-encoded were accepted")
+                    except TypeError:
+                        refused.append(1)
                 else:
                     verb("/p", **kw)
         except Exception as err:  # pragma: no cover
@@ -465,6 +474,7 @@ def stress_round(ctx, seed, interleavings, case_no):
         return
     ctx.count("yields_injected", injected[0])
     ctx.count("connections_described_between_requests", len(described))
+    ctx.count("calls_refused_before_anything_was_sent", len(refused))
     through_id_adapters = sum(n_req for i in range(n_threads) if uses_id_adapter(i))
     ctx.count("requests_through_connections_whose_adapter_supplies_the_id", through_id_adapters)
     if len(op.adapter_ids) != through_id_adapters:
